@@ -9,9 +9,11 @@ def blob(s):
     return "x01" + s.encode().hex()
 
 
-def w(name, title, props, cmd, ops):
+def w(name, title, props, cmd, ops, nodriver=False):
     with open(os.path.join(ROOT, "corpus", name + ".txt"), "w") as f:
         f.write(f"# corpus {name}: {title}\n# props: {' '.join(props)}\n# cmd: {cmd}\n")
+        if nodriver:
+            f.write("# nodriver\n")
         for o in ops:
             f.write(o + "\n")
 
@@ -85,4 +87,20 @@ w("FIB8", "sparsest AVL tree of height 11 (232 nodes) in a 255-capacity 8-bit tr
 ops32 = [o.replace("init 255", "init 300") for o in ops]
 w("FIB32", "same shape in a 32-bit tree with instrumented keys (comparison logs along the deepest paths)", ["C06", "C12", "C01"],
   "tree type=T32logu8 slots=300 cap=300 keys=" + ",".join(str(k) for k in range(0, 237)), ops32)
+
+# very large collections (oracle-only: the by-lookup layout of the model is quadratic), built with bulk operations
+w("BIG32", "32-bit tree with more than 65535 entries: counts, lookups, refill, drain", ["C01", "C07", "C10", "C12", "C06"],
+  "tree type=T32u64u64 slots=70000 cap=70000 keys=3,999,1000,33000,66999,67000,69999,200000",
+  ["init 70000", "bulk 1000 66000", "rlen", "full", "get 1000", "get 33000", "get 66999", "get 67000", "low", "ins 3 9", "low", "rem 3",
+   "ins 67000 1", "bulk 100000 5000", "rlen", "full", "ins 999 1", "rget 69999", "bulkrem 1000 66000", "rlen", "low", "get 33000",
+   "bulk 200000 70000", "rlen", "full", "rget 200000", "bulkrem 100000 5000", "bulkrem 200000 70000", "rlen", "rget 67000", "rem 67000", "empty"], nodriver=True)
+w("BIGH", "hash set with more than 65535 members", ["C02", "C07", "C12", "C10"],
+  "hset type=HU64 slots=70000 cap=70000 vals=3,999,1000,33000,66999,67000,200000",
+  ["init 70000", "bulk 1000 66000", "rsize", "full", "has 1000", "has 33000", "has 66999", "has 67000", "ins 3", "rem 3", "ins 67000",
+   "bulk 100000 5000", "rsize", "full", "ins 999", "bulkrem 1000 66000", "rsize", "has 33000", "bulk 200000 70000", "rsize", "full",
+   "rhas 200000", "bulkrem 200000 70000", "bulkrem 100000 5000", "rsize", "rem 67000", "empty"], nodriver=True)
+w("BIGA16", "array set behind a u16 prefix over more than 65535 slots: the prefix maximum", ["C03", "C12", "C09", "C08"],
+  "aset type=A16u32 slots=65540 vals=0,1,2,65535,65536,70000,70001",
+  ["bulk 1 65535", "rlen", "full", "ins 70000", "ins 0", "rhas 65535", "rhas 1", "take 1", "rlen", "full", "ins 70000", "rlen", "full",
+   "ins 70001", "rhas 70000", "take 70000", "ins 0", "rlen", "ext 10", "full", "ins 70001"], nodriver=True)
 print("corpus written")
